@@ -378,6 +378,8 @@ type wProf struct {
 	// AccessSel selects the access-settings variant (-1: derived from the
 	// version like every other setting).
 	AccessSel int
+	// SchedSel selects the pause-schedule variant (0: derived from the version).
+	SchedSel int
 	// tombDevs are the device states a deleted profile still lists (variant
 	// "deleted profile keeps its devices").
 	tombDevs []*wDev
